@@ -1482,7 +1482,7 @@ def generate(outdir=None, verbose=False, omit_defs=(), omit_thms=()):
                 dropped.add(fn.py)
                 status[key] = dict(translated=False, reason=why, python='%s.%s' % (u.cls, fn.py), file=u.path, unit=u.ns)
                 gen += '-- %s.%s: not translatable (%s)\n\n' % (u.cls, fn.py, why)
-                for suf, _ in projections(u, fn):
+                for suf, _ in projections(u, fn) + ([('refusal', '')] if fn.kind == 'mutexc' else []):
                     status[key + '#' + suf] = dict(status[key])
                 continue
             g0 = gen.count('\n') + 1
@@ -1497,6 +1497,14 @@ def generate(outdir=None, verbose=False, omit_defs=(), omit_thms=()):
                 stmts.append((key + '#' + suf, 'tie_%s_%s__%s' % (u.ns, fn.lean, suf),
                               '%s:\n    (%s)%s = (%s)%s' % (head.replace('tie_%s_%s' % (u.ns, fn.lean), 'tie_%s_%s__%s' % (u.ns, fn.lean, suf)),
                                                          lhs, proj, rhs, proj)))
+            if fn.kind == 'mutexc':
+                # about the translated source alone: a refusal leaves every attribute except the clock as it was
+                st = u.tie_statement(fn)
+                head = st.rsplit(':\n', 1)[0].replace('tie_%s_%s' % (u.ns, fn.lean), 'refusal_%s_%s' % (u.ns, fn.lean))
+                call = st.rsplit(':\n', 1)[1].strip().split(' = ', 1)[0]
+                keep = [f for a, (f, t) in u.fieldmap.items() if f != 'clock']
+                stmts.append((key + '#refusal', 'refusal_%s_%s' % (u.ns, fn.lean),
+                              '%s:\n    (%s).2 ≠ none → %s' % (head, call, ' ∧ '.join('(%s).1.%s = %s.%s' % (call, f, u.self_var, f) for f in keep))))
             for k2, name, st in stmts:
                 full = 'Qs.Tie.' + name
                 ent = dict(translated=True, python='%s.%s' % (u.cls, fn.py), file=u.path, unit=u.ns, theorem=full, model=fn.model,
@@ -1506,7 +1514,10 @@ def generate(outdir=None, verbose=False, omit_defs=(), omit_thms=()):
                     tie += '-- %s: the proof does not check against the current source\n\n' % name
                 else:
                     t0 = tie.count('\n') + 1
-                    tie += '%s := by\n  first\n  | qs_tie [%s]\n  | qs_tie [%s]\n\n' % (st, ', '.join(core), ', '.join(core + extra))
+                    if k2.endswith('#refusal'):
+                        tie += '%s := by\n  simp only [Qs.Gen.%s.%s]\n  split_ifs <;> simp_all\n\n' % (st, u.ns, fn.lean)
+                    else:
+                        tie += '%s := by\n  first\n  | qs_tie [%s]\n  | qs_tie [%s]\n\n' % (st, ', '.join(core), ', '.join(core + extra))
                     ent['thm_span'] = [t0, tie.count('\n')]
                 status[k2] = ent
         gen += 'end %s\n\nend\nend Qs.Gen\n' % u.ns
@@ -1548,7 +1559,7 @@ def generate(outdir=None, verbose=False, omit_defs=(), omit_thms=()):
         if text is None:
             status[fn.key] = dict(translated=False, reason=why, python='%s.%s' % (fn.cls, fn.py), file=fn.path, unit='Kernels')
             gen += '-- %s.%s: not translatable (%s)\n\n' % (fn.cls, fn.py, why)
-            for comp in PFVIEW_COMPONENTS:
+            for comp in PFVIEW_COMPONENTS + ['refusal']:
                 status[fn.key + '#' + comp] = dict(status[fn.key])
             continue
         ns, nm = fn.lean.split('.')
@@ -1562,6 +1573,12 @@ def generate(outdir=None, verbose=False, omit_defs=(), omit_thms=()):
         items = [(fn.key, 'tie_%s_%s' % (ns, nm), stmt)] + [
             (fn.key + '#' + comp, 'tie_%s_%s__%s' % (ns, nm, comp), '%s:\n    (%s).%s = (%s).%s' % (head, lhs, comp, rhs, comp))
             for comp in PFVIEW_COMPONENTS]
+        # a statement about the translated source alone: a refused request leaves the cash as it was and appends nothing
+        bnames = ' '.join(b for b, _t in fn.binders)
+        btext = ''.join(' (%s : %s)' % b for b in fn.binders)
+        items.append((fn.key + '#refusal', 'refusal_%s_%s' % (ns, nm),
+                      '%s :\n    (Qs.Gen.%s %s).err ≠ none → (Qs.Gen.%s %s).cash = cash ∧ (Qs.Gen.%s %s).appended = false' % (
+                          btext, fn.lean, bnames, fn.lean, bnames, fn.lean, bnames)))
         for k2, name, st_ in items:
             full = 'Qs.Tie.' + name
             ent = dict(translated=True, python='%s.%s' % (fn.cls, fn.py), file=fn.path, unit='Kernels', theorem=full, def_span=[g0, g1])
@@ -1570,7 +1587,10 @@ def generate(outdir=None, verbose=False, omit_defs=(), omit_thms=()):
                 tie += '-- %s: the proof does not check against the current source\n\n' % name
             else:
                 t0 = tie.count('\n') + 1
-                tie += 'theorem %s %s := by\n  qs_tie_view [%s]\n\n' % (name, st_, ', '.join(core))
+                if k2.endswith('#refusal'):
+                    tie += 'theorem %s%s := by\n  simp only [Qs.Gen.%s]\n  split_ifs <;> simp_all\n\n' % (name, st_, fn.lean)
+                else:
+                    tie += 'theorem %s %s := by\n  qs_tie_view [%s]\n\n' % (name, st_, ', '.join(core))
                 ent['thm_span'] = [t0, tie.count('\n')]
             status[k2] = ent
     gen += 'end\nend Qs.Gen\n'
